@@ -531,7 +531,7 @@ func (sim *Sim) Schedule() (res pscheduling.Results, err error, panicked string)
 		pscheduling.MaxInstanceTypes = 600
 	}
 	if sim.S.Options.Reserved != "fallback" {
-		res, err = sim.Prov.Schedule(sim.Ctx)
+		res, err = sim.Prov.Schedule(sim.scheduleCtx())
 		return res, err, ""
 	}
 	ctx := sim.Ctx
@@ -619,6 +619,7 @@ func RunScenario(s *Scenario, tw *trace.Writer) (sum trace.M, err error) {
 			emit(trace.M{"e": "CreateErr", "msg": trunc(cerr.Error(), 200)})
 		}
 	}
+	sim.staticStep(emit)
 	sim.W.Sink = nil
 	emit(trace.M{"e": "End", "status": "ok", "msg": "-"})
 	placed := 0
